@@ -2,6 +2,7 @@ package props
 
 import (
 	"fmt"
+	"math"
 	"reflect"
 	"strconv"
 	"strings"
@@ -259,7 +260,11 @@ func mvMatches(got interface{}, want mv, refs map[string]interface{}, top bool) 
 		case *decimal.Big:
 			return g != nil && g.IsFinite() && g.Cmp(decimal.New(want.I, 0)) == 0
 		case float64:
-			return top && g == float64(want.I)
+			if top {
+				return g == float64(want.I) // results leave as the nearest float64 (C04)
+			}
+			// stored / nested: any Go number kind will do as long as it holds exactly this integer
+			return g == math.Trunc(g) && math.Abs(g) < 9e18 && int64(g) == want.I
 		case int:
 			return int64(g) == want.I
 		case int64:
